@@ -224,7 +224,27 @@ func execSelf(timeout time.Duration, env []string, args ...string) ([]byte, []by
 }
 
 // execPlanFresh runs one plan in a fresh process and returns its result.
+// execPlanFreshFor re-executes for a violation class; the race runtime's verdict on a
+// serialised run can be masked by happens-before edges from sync.Pool inside package
+// regexp (DESIGN §2.4), so a data-race class gets a few fresh-process attempts.
+func execPlanFreshFor(workdir string, plan []byte, prop string, v Violation) (*RunResult, error) {
+	attempts := 1
+	if v.Oracle == "C13/data-race" {
+		attempts = 4
+	}
+	var rr *RunResult
+	var err error
+	for i := 0; i < attempts; i++ {
+		rr, err = execPlanFresh(workdir, plan, prop)
+		if err == nil && sameClass(rr, v) != nil {
+			return rr, nil
+		}
+	}
+	return rr, err
+}
+
 func execPlanFresh(workdir string, plan []byte, prop string) (*RunResult, error) {
+	os.MkdirAll(workdir, 0o755)
 	f, err := os.CreateTemp(workdir, "cand-*.json")
 	if err != nil {
 		return nil, err
@@ -232,7 +252,8 @@ func execPlanFresh(workdir string, plan []byte, prop string) (*RunResult, error)
 	f.Write(plan)
 	f.Close()
 	defer os.Remove(f.Name())
-	so, se, code := execSelf(120*time.Second, nil, "exec-plan", "-prop", prop, "-plan", f.Name())
+	cfg := driveCfg{prop: prop, workdir: workdir}
+	so, se, code := execSelf(120*time.Second, append(workerEnvBase(cfg), fmt.Sprintf("GOMAXPROCS=%d", workerGOMAXPROCS(cfg))), "exec-plan", "-prop", prop, "-plan", f.Name())
 	if code != 0 {
 		return nil, fmt.Errorf("exec-plan exit %d: %s", code, tail(se, 600))
 	}
@@ -280,6 +301,24 @@ func drive(cfg driveCfg) int {
 	known := loadFindings(cfg.known)
 
 	fmt.Printf("# %s %s: VERIF_SEED=%d workers=%d\n", cfg.prop, cfg.tier, cfg.seed, cfg.workers)
+	if rep, ok := readInstrReport(cfg.instrRep).(map[string]interface{}); ok {
+		ns, nskip := 0, 0
+		if sites, ok := rep["sites"].([]interface{}); ok {
+			for _, s := range sites {
+				ns++
+				if m, ok := s.(map[string]interface{}); ok && m["mode"] == "skipped" {
+					nskip++
+					fmt.Printf("# WARNING: map-order seam not installed at %v: %v\n", m["label"], m["reason"])
+				}
+			}
+		}
+		if ws, ok := rep["warnings"].([]interface{}); ok {
+			for _, w := range ws {
+				fmt.Printf("# WARNING: instrumenter: %v\n", w)
+			}
+		}
+		fmt.Printf("# map-order seam: %d range-over-map sites instrumented, %d left to the Go runtime\n", ns-nskip, nskip)
+	}
 
 	// 1. determinism self-test: same plans, fresh processes, different GOMAXPROCS
 	stSeeds := 30
@@ -509,14 +548,14 @@ func minimiseAndConfirm(cfg driveCfg, eng *Engine, v Violation) (Violation, bool
 			}
 			return sameClass(rr, v)
 		}
-		rr, err := execPlanFresh(cfg.workdir, cand, cfg.prop)
+		rr, err := execPlanFreshFor(cfg.workdir, cand, cfg.prop, v)
 		if err != nil {
 			return nil
 		}
 		return sameClass(rr, v)
 	}
 	// confirm the unminimised plan first, in a fresh process
-	rr, err := execPlanFresh(cfg.workdir, v.Plan, cfg.prop)
+	rr, err := execPlanFreshFor(cfg.workdir, v.Plan, cfg.prop, v)
 	orig := sameClass(rr, v)
 	if orig == nil {
 		return v, false, fmt.Sprintf("original plan: %v", err)
@@ -530,7 +569,7 @@ func minimiseAndConfirm(cfg driveCfg, eng *Engine, v Violation) (Violation, bool
 			}
 			return fails(c)
 		}, 400)
-		if rr2, err := execPlanFresh(cfg.workdir, min, cfg.prop); err == nil {
+		if rr2, err := execPlanFreshFor(cfg.workdir, min, cfg.prop, v); err == nil {
 			if got := sameClass(rr2, v); got != nil {
 				return *got, true, fmt.Sprintf("plan minimised from %d to %d bytes of JSON; minimised plan re-executed in a fresh process and failed the same way", len(v.Plan), len(got.Plan))
 			}
@@ -626,6 +665,11 @@ func runDigest(prop, tier string, seed uint64, n int) int {
 		}
 		var vs []string
 		for _, v := range res.Violations {
+			if v.Oracle == "C13/data-race" {
+				// the race runtime de-duplicates equal reports per process; its verdict per run is
+				// checked by fresh-process confirmation, not by this digest comparison
+				continue
+			}
 			vs = append(vs, v.Oracle)
 		}
 		fmt.Printf("%d %s %s evals=%d nt=%d viol=%v\n", idx, res.PlanDigest, res.Digest, res.Evals, res.Nontrivial, vs)
@@ -638,14 +682,15 @@ func runDigest(prop, tier string, seed uint64, n int) int {
 func workerEnvBase(cfg driveCfg) []string {
 	env := []string{"GOTRACEBACK=single"}
 	if cfg.prop == "C13" {
-		env = append(env, "GORACE=atexit_sleep_ms=0 halt_on_error=0 exitcode=0 history_size=2")
+		env = append(env, "GORACE=atexit_sleep_ms=0 halt_on_error=0 exitcode=0 log_path="+filepath.Join(cfg.workdir, "race"),
+			"GODEBUG=asyncpreemptoff=1")
 	}
 	return env
 }
 
 func workerGOMAXPROCS(cfg driveCfg) int {
 	if cfg.prop == "C13" {
-		return 8
+		return 16 // spare Ps: a parked task tends to keep its own P, hence its own sync.Pool shard (DESIGN §2.4)
 	}
 	return 1
 }
